@@ -226,11 +226,11 @@ def render_lproject(proj, root, modpath, cfgname="gleece.json"):
     for fi, lines in files.items():
         body = "\n".join(lines) + "\n"
         imports = ['"github.com/gopher-fleece/runtime"']
-        if "context." in body:
+        if re.search(r"(?<![A-Za-z_])context\.", body):
             imports.append('"context"')
-        if "time." in body:
+        if re.search(r"(?<![A-Za-z_])time\.", body):
             imports.append('"time"')
-        if "types." in body:
+        if re.search(r"(?<![A-Za-z_])types\.", body):
             imports.append('"%s/types"' % modpath)
         header = "package ctl\n\nimport (\n%s\n)\n" % "\n".join("\t" + i for i in imports)
         if '"github.com/gopher-fleece/runtime"' in header and "runtime." not in body:
@@ -332,18 +332,24 @@ def coq_eval_cases(routes, prefixes, obs, tag, prop=PROP):
             "Definition agree := Eval vm_compute in map (fun c => let '(r, o, acc) := c in " \
             "bool_n (obs_eqb (obs_of (validate r)) o && Bool.eqb (accepted r) acc)) cases.\n" \
             "Definition oracle := Eval vm_compute in map (fun c => let '(r, o, acc) := c in prop_C10_route r acc) cases.\n" \
-            "Definition classes := Eval vm_compute in map (fun c => let '(r, o, acc) := c in " \
-            "fold_left (fun a k => a + Nat.pow 2 k) (classes_of r) 0) cases.\n" \
+            "Definition classes := Eval vm_compute in flat_map (fun c => let '(r, o, acc) := c in " \
+            "classes_of r ++ [99]) cases.\n" \
             "Definition wl := Eval vm_compute in map (fun c => let '(r, o, acc) := c in bool_n (well_linked r)) cases.\n" \
             "Print agree.\nPrint oracle.\nPrint classes.\nPrint wl.\n"
         o = run_coq_file(prop, "%s_cases_%d" % (tag, lo), body)
         ag = parse_nat_list(o, "agree")
         orc = parse_nat_list(o, "oracle")
-        cl = parse_nat_list(o, "classes")
+        flat = parse_nat_list(o, "classes")
         wl = parse_nat_list(o, "wl")
+        cl, cur = [], []
+        for x in flat:
+            if x == 99:
+                cl.append(cur)
+                cur = []
+            else:
+                cur.append(x)
         for k in range(len(chunk)):
-            res.append({"agrees": bool(ag[k]), "oracle": orc[k], "well_linked": bool(wl[k]),
-                        "classes": [b for b in range(20) if cl[k] >> b & 1]})
+            res.append({"agrees": bool(ag[k]), "oracle": orc[k], "well_linked": bool(wl[k]), "classes": cl[k]})
     return res
 
 
